@@ -342,7 +342,9 @@ func (C10) Execute(sc *core.Scenario, keepLog bool) *core.Result {
 				fail("rejected", c.kind+": valid command rejected: "+c10ErrText(err), "%s", where)
 			default:
 				if d := c10Diff(reflect.ValueOf(c.expected), reflect.ValueOf(got), "cmd"); d != "" {
-					fail("mismatch", c.kind+": parsed command differs from the written one at "+d, "expected=%s got=%s continuations=%d/%d %s", c10Dump(c.expected), c10Dump(got), contCalls, len(c.gates), where)
+					// d = "<path>: <kind of difference>" [NUL "<values>"]; only the first part is signature
+					stable, values, _ := strings.Cut(d, "\x00")
+					fail("mismatch", c.kind+": parsed command differs from the written one at "+stable, "%s expected=%s got=%s continuations=%d/%d %s", values, c10Dump(c.expected), c10Dump(got), contCalls, len(c.gates), where)
 				} else if contBad != "" {
 					fail("continuation", c.kind+": "+contBad, "%s", where)
 				} else if contCalls != len(c.gates) {
@@ -450,7 +452,7 @@ func c10ErrText(err error) string {
 var c10TimeType = reflect.TypeOf(time.Time{})
 
 // c10Diff returns "" when a (expected) and b (got) denote the same command, else the
-// path of the first difference.  It is reflect.DeepEqual with three relaxations that
+// path and kind of the first difference, optionally followed by NUL and the values.  It is reflect.DeepEqual with three relaxations that
 // carry no meaning for the property: a nil and an empty slice/map are the same, times
 // are compared as instants plus zone offset (not by *Location identity), and
 // unexported fields do not exist in these types.
@@ -486,7 +488,7 @@ func c10Diff(a, b reflect.Value, path string) string {
 			_, oa := ta.Zone()
 			_, ob := tb.Zone()
 			if ta.IsZero() != tb.IsZero() || !ta.Equal(tb) || oa != ob {
-				return fmt.Sprintf("%s: time %s vs %s", path, ta.Format(time.RFC3339), tb.Format(time.RFC3339))
+				return fmt.Sprintf("%s: time differs\x00%s vs %s", path, ta.Format(time.RFC3339), tb.Format(time.RFC3339))
 			}
 			return ""
 		}
@@ -498,7 +500,7 @@ func c10Diff(a, b reflect.Value, path string) string {
 		return ""
 	case reflect.Slice:
 		if a.Len() != b.Len() {
-			return fmt.Sprintf("%s: length %d vs %d", path, a.Len(), b.Len())
+			return fmt.Sprintf("%s: length differs\x00%d vs %d", path, a.Len(), b.Len())
 		}
 		if a.Type().Elem().Kind() == reflect.Uint8 {
 			if !bytes.Equal(a.Bytes(), b.Bytes()) {
@@ -514,14 +516,14 @@ func c10Diff(a, b reflect.Value, path string) string {
 		return ""
 	case reflect.Map:
 		if a.Len() != b.Len() {
-			return fmt.Sprintf("%s: map size %d vs %d", path, a.Len(), b.Len())
+			return fmt.Sprintf("%s: map size differs\x00%d vs %d", path, a.Len(), b.Len())
 		}
 		keys := a.MapKeys()
 		sort.Slice(keys, func(i, j int) bool { return keys[i].String() < keys[j].String() })
 		for _, k := range keys {
 			vb := b.MapIndex(k)
 			if !vb.IsValid() {
-				return fmt.Sprintf("%s: key %q missing", path, k.String())
+				return fmt.Sprintf("%s: key missing\x00%q", path, k.String())
 			}
 			if d := c10Diff(a.MapIndex(k), vb, path+"[key]"); d != "" {
 				return d
@@ -530,17 +532,17 @@ func c10Diff(a, b reflect.Value, path string) string {
 		return ""
 	case reflect.String:
 		if a.String() != b.String() {
-			return fmt.Sprintf("%s: string %s vs %s", path, c10Short([]byte(a.String()), 60), c10Short([]byte(b.String()), 60))
+			return fmt.Sprintf("%s: string differs\x00%s vs %s", path, c10Short([]byte(a.String()), 60), c10Short([]byte(b.String()), 60))
 		}
 		return ""
 	case reflect.Int, reflect.Int8, reflect.Int16, reflect.Int32, reflect.Int64:
 		if a.Int() != b.Int() {
-			return fmt.Sprintf("%s: %d vs %d", path, a.Int(), b.Int())
+			return fmt.Sprintf("%s: number differs\x00%d vs %d", path, a.Int(), b.Int())
 		}
 		return ""
 	case reflect.Uint, reflect.Uint8, reflect.Uint16, reflect.Uint32, reflect.Uint64:
 		if a.Uint() != b.Uint() {
-			return fmt.Sprintf("%s: %d vs %d", path, a.Uint(), b.Uint())
+			return fmt.Sprintf("%s: number differs\x00%d vs %d", path, a.Uint(), b.Uint())
 		}
 		return ""
 	case reflect.Bool:
@@ -635,6 +637,13 @@ func c10DumpV(sb *strings.Builder, v reflect.Value) {
 		sb.WriteByte(']')
 	case reflect.String:
 		sb.WriteString(c10Short([]byte(v.String()), 80))
+	case reflect.Int, reflect.Int8, reflect.Int16, reflect.Int32, reflect.Int64:
+		// numeric on purpose: some String() methods of the command types are lossy
+		if v.Type().Name() == "SeqNum" && v.Int() == 0 {
+			sb.WriteByte('*')
+		} else {
+			sb.WriteString(strconv.FormatInt(v.Int(), 10))
+		}
 	default:
 		fmt.Fprint(sb, v.Interface())
 	}
